@@ -117,14 +117,14 @@ pub fn learn_ids() -> Result<Ids, String> {
 
 pub fn less_than_program(k: &str) -> String {
     format!(
-        "template M(n) {{\n    signal input a;\n    signal input b;\n    signal output ok;\n    var k = 100;\n    component n2b[2];\n    n2b[0] = Num2Bits({k});\n    n2b[0].in <== a;\n    n2b[1] = Num2Bits({k});\n    n2b[1].in <== b;\n    component lt = LessThan({k});\n    lt.in[0] <== a;\n    lt.in[1] <== b;\n    ok <== lt.out;\n}}\n"
+        "template M(n) {{\n    signal input a;\n    signal input b;\n    signal output ok;\n    var k = 100;\n    var j = 8;\n    var pad = 0;\n    if (n > 1) {{\n        if (n > 8) {{\n            j = n;\n        }}\n        pad = 1;\n    }}\n    component n2b[2];\n    n2b[0] = Num2Bits({k});\n    n2b[0].in <== a;\n    n2b[1] = Num2Bits({k});\n    n2b[1].in <== b;\n    component lt = LessThan({k});\n    lt.in[0] <== a;\n    lt.in[1] <== b;\n    ok <== lt.out;\n}}\n"
     )
 }
 
 /// Other wirings of the same range checks. Returns (program, inputs that are range-checked by
 /// `Num2Bits(k)` only - each must be flagged when a k-bit value can exceed p/2).
 pub fn less_than_shape(shape: usize, k: &str) -> (String, usize) {
-    let head = "template M(n) {\n    signal input a;\n    signal input b;\n    signal output ok;\n    var k = 100;\n";
+    let head = "template M(n) {\n    signal input a;\n    signal input b;\n    signal output ok;\n    var k = 100;\n    var j = 8;\n    var pad = 0;\n    if (n > 1) {\n        if (n > 8) {\n            j = n;\n        }\n        pad = 1;\n    }\n";
     let tail = format!("    component lt = LessThan({k});\n    lt.in[0] <== a;\n    lt.in[1] <== b;\n    ok <== lt.out;\n}}\n");
     let (body, must) = match shape {
         // separately named components
@@ -181,12 +181,30 @@ pub fn check_name(name: &str, expected: (bool, bool), ids: &Ids, case: &Value) -
     out
 }
 
+/// Statements in front of the instantiation: locals the size forms use. `j` is assigned in an `if`
+/// nested in an `if` (its value at the instantiation is not a constant); with `large` a table of
+/// 1500 constant definitions precedes it (the size argument is resolved late).
+pub fn size_prelude(large: bool) -> String {
+    let mut s = String::from("    var k = 100;\n    var j = 8;\n    var pad = 0;\n    if (n > 1) {\n        if (n > 8) {\n            j = n;\n        }\n        pad = 1;\n    }\n");
+    if large {
+        for i in 0..1500 {
+            s.push_str(&format!("    var t{i} = {};\n", i % 7 + 1));
+        }
+    }
+    s
+}
+
 pub fn check_size(arg: &str, constant: Option<u64>, ids: &Ids, case: &Value) -> Vec<Violation> {
+    check_size_in(arg, constant, ids, case, false)
+}
+
+pub fn check_size_in(arg: &str, constant: Option<u64>, ids: &Ids, case: &Value, large: bool) -> Vec<Violation> {
     let mut out = Vec::new();
     let primes = real_primes();
+    let prelude = size_prelude(large);
     for template in ["Num2Bits", "Bits2Num"] {
         for curve in CURVES {
-            let src = format!("template M(n) {{\n    signal input in;\n    var k = 100;\n    component c = {template}({arg});\n}}\n");
+            let src = format!("template M(n) {{\n    signal input in;\n{prelude}    component c = {template}({arg});\n}}\n");
             let expect = curve == "BN254" && !matches!(constant, Some(n) if n < 254);
             match count_reports(&src, &curve_of(curve), &ids.nonstrict) {
                 Ok(n) => {
@@ -203,6 +221,9 @@ pub fn check_size(arg: &str, constant: Option<u64>, ids: &Ids, case: &Value) -> 
                 Err(e) => out.push(Violation { signature: format!("MACHINERY-{e}"), what: "not analysed".into(), case: case.clone(), expected: "analysed".into(), observed: src }),
             }
         }
+    }
+    if large {
+        return out;
     }
     // LessThan inputs range-checked by Num2Bits(k).
     for (curve, p) in &primes {
@@ -299,7 +320,7 @@ pub fn run(run: &Run) {
     run.set_rule(
         "table parsed from doc/analysis_passes.md (26 names x 2 curves, Circomlib spelling) + ~9 near-miss \
          names each, x 3 instantiation forms x 3 curves; Num2Bits/Bits2Num/LessThan sizes: every \
-         constant 0..300 and non-constant forms {n, n+1, k (local), 2*127, 254-1, 127+127} x 3 curves, the LessThan \
+         constant 0..300 and non-constant forms {n, n+1, k (local), j (assigned in a nested if), 2*127, 254-1, 127+127} x 3 curves, five sizes again behind 1500 constant definitions, the LessThan \
          clause in 7 wirings (component array, separate names, same name in sibling scopes both ways, shadowing \
          in a nested block, declared first and wired later, two-dimensional array); \
          every upper/lower-case spelling of the three curve names and every string one edit away \
@@ -373,6 +394,9 @@ pub fn run(run: &Run) {
         ("127 + 127".to_string(), Some(254)),
         ("63 + k".to_string(), Some(163)),
         ("n * 0".to_string(), None),
+        // assigned in an `if` nested in an `if`: not a constant at the instantiation
+        ("j".to_string(), None),
+        ("j + 1".to_string(), None),
     ]);
     par_each(&sizes, |_, (arg, constant)| {
         let case = json!({"kind": "size", "arg": arg, "constant": constant});
@@ -384,6 +408,15 @@ pub fn run(run: &Run) {
         let vs = check_size(arg, *constant, &ids, &case);
         run.outcome(&format!("size:violations={}", vs.len().min(2)));
         run.violations(vs);
+    });
+    // The same size test at the end of a large template (1500 constant definitions in front).
+    let large: Vec<(String, Option<u64>)> = vec![("8".into(), Some(8)), ("253".into(), Some(253)), ("254".into(), Some(254)), ("k".into(), Some(100)), ("n".into(), None)];
+    par_each(&large, |_, (arg, constant)| {
+        let case = json!({"kind": "size-large", "arg": arg, "constant": constant});
+        run.watch(&case);
+        run.eval(6);
+        run.nontrivial(1);
+        run.violations(check_size_in(arg, *constant, &ids, &case, true));
     });
     // Spellings.
     run.set_extra("less_than_wiring_shapes_judged", json!(SHAPES_JUDGED.load(std::sync::atomic::Ordering::Relaxed)));
@@ -452,6 +485,7 @@ pub fn replay(case: &Value) -> Vec<Violation> {
             check_name(name, expected, &ids, case)
         }
         Some("size") => check_size(case["arg"].as_str().unwrap_or("0"), case["constant"].as_u64(), &ids, case),
+        Some("size-large") => check_size_in(case["arg"].as_str().unwrap_or("0"), case["constant"].as_u64(), &ids, case, true),
         Some("spelling") => {
             let s = case["name"].as_str().unwrap_or("");
             let accepted = Curve::from_str(s).is_ok();
